@@ -2,7 +2,7 @@
 from mirlib import *
 from ranges import *
 from shape import *
-import r_decclass, r_inv, r_surr, r_pendcount, r_requeue
+import r_decclass, r_inv, r_surr, r_pendcount, r_requeue, r_endian
 
 DEC_SURR_SCOPE = lambda nm: 'Decoder::' in nm or nm.startswith(('handles::Utf16Destination', 'handles::Utf8Destination', 'handles::convert_unaligned', 'utf_16::'))
 
@@ -25,7 +25,8 @@ MANIFEST = {
             'contents) and whole-stream equality with the Standard are numerical and not decided. ' 
             '(R-SURR) every surrogate-class test in the UTF-16 decoder, its copy_utf16_from fast paths and convert_unaligned_utf16_to_utf8 denotes exactly D800-DBFF, DC00-DFFF or D800-DFFF. ' 
             '(R-PENDCOUNT) for the two decoders that keep an unfinished sequence in an enum (EUC-JP, gb18030), Pending::count() — reported as the malformed length when the stream ends there — agrees with the bytes actually taken: on every path from a loop head to `return InputEmpty` that stores a non-None variant, count(variant) minus the number of byte reads on the path is the same for all variants (the byte already in hand at that head). ' 
-            '(R-REQUEUE) on every path that ends in Malformed(len, after) with after > 0 (gb18030: 8 paths, resume and in-loop) the bytes of the current sequence are ordered chronologically (payload of the matched pending variant, byte in hand, reads minus unread) and every value stored into a state field derives only from the `after` re-queued bytes, never from the malformed ones, and each re-queued byte reaches a state field.',
+            '(R-REQUEUE) on every path that ends in Malformed(len, after) with after > 0 (gb18030: 8 paths, resume and in-loop) the bytes of the current sequence are ordered chronologically (payload of the matched pending variant, byte in hand, reads minus unread) and every value stored into a state field derives only from the `after` re-queued bytes, never from the malformed ones, and each re-queued byte reaches a state field. ' 
+            '(R-ENDIAN) every code unit the UTF-16LE/BE decoders read from the unaligned byte source (UnalignedU16Slice::at / simd_at) reaches its uses only through the endianness adapter: swap_if_opposite_endian, or simd_byte_swap / swap_bytes on the E::OPPOSITE_ENDIAN branch and unswapped on the other (every region path of every reading body).',
     'note': 'Trusted: rustc MIR, mirx, rule library, the Standard\'s decoder byte ranges transcribed in rules/p_c01.py; the ASCII fast path '
             'delivers only bytes >= 0x80 as `non_ascii` (kernel contract).',
     'technique': 'abstract interpretation (exact interval sets per fetched byte, opaque table predicates) over rustc MIR',
@@ -345,6 +346,7 @@ def run(rep, facts, tier):
         d6(rep, f, c)
         r_inv.run(rep, f, c, 'R-INV')
         r_pendcount.run(rep, f, c)
+        r_endian.run(rep, f, c)
         n = r_requeue.run(rep, f, c)
         rep.floor('R-REQUEUE', 'Malformed(len, after>0) paths with re-queued bytes', n, 8, c)
         n = r_surr.run(rep, f, c, 'R-SURR', DEC_SURR_SCOPE)
